@@ -41,7 +41,7 @@ def main():
         meta['suite_with_patch'] = out.strip().splitlines()[-1] if out.strip() else ''
         suite_ok = ' passed' in meta['suite_with_patch'] and 'failed' not in meta['suite_with_patch']
         demo = open(os.path.join(src, 'demo.py')).read()
-        wt = re.search(r'/tmp/wt_C\d+', demo)
+        wt = re.search(r'/tmp/wt_C\d+', demo) or re.search(r'/repo(?=[\'"/])', demo)
         res = {}
         for label, root in (('with_patch', patched), ('without_patch', pristine)):
             d2 = demo.replace(wt.group(0), root) if wt else demo
@@ -62,12 +62,15 @@ def main():
                          'lines': [l[:300] for l in lines[:8]]}
         meta['checks'] = checks
         notes = os.path.join(src, 'notes.txt')
-        meta['needs_to_manifest'] = open(notes).read().strip() if os.path.exists(notes) else ''
+        old_meta = os.path.join(src, 'meta.json')
+        meta['needs_to_manifest'] = open(notes).read().strip() if os.path.exists(notes) else \
+            (json.load(open(old_meta)).get('needs_to_manifest', '') if os.path.exists(old_meta) else '')
         meta['ran'] = ['suite: cd <patched copy> && %s -m pytest -q -p no:cacheprovider -x' % PY,
                        'demo with/without patch', 'checks: VP_REPO=<patched copy> %s -m vp.check <prop> --tier %s' % (PY, tier)]
         dst = os.path.join('/verif/seeded', name)
         os.makedirs(dst, exist_ok=True)
-        shutil.copy(os.path.join(src, 'patch.diff'), os.path.join(dst, 'patch.diff'))
+        if os.path.abspath(src) != os.path.abspath(dst):
+            shutil.copy(os.path.join(src, 'patch.diff'), os.path.join(dst, 'patch.diff'))
         open(os.path.join(dst, 'demo.py'), 'w').write(demo.replace(wt.group(0), '/repo') if wt else demo)
         json.dump(meta, open(os.path.join(dst, 'meta.json'), 'w'), indent=1)
         print(json.dumps({'name': name, 'confirmed': meta['confirmed'], 'suite': meta['suite_with_patch'],
